@@ -1,3 +1,233 @@
 package main
 
-func runThoroughExtras(pc *propCheck, w *World, r *Report, repo string) {}
+// Thorough tier (DESIGN §5): everything the quick tier decides, plus
+//   (a) the same rules over the tree as built for a 32-bit target (GOARCH=386: the files and constant
+//       arithmetic that build selects), reporting every obligation that fails there and not on the default target;
+//   (b) a sensitivity audit: each stored seeded change of the property (/verif/seeded/<id>-k/patch.diff, written
+//       by an independent agent from the property text alone and confirmed to break the property) is applied
+//       to a scratch copy of the CURRENT working tree and the property's rules are run on the variant; the
+//       evidence records which seeds the rules catch. A seed that no longer applies or that a later repair made
+//       harmless is recorded as such. The audit never changes the verdict on /repo;
+//   (c) a cross-reference run of the generic analysers (go vet, staticcheck) over the module, recorded as
+//       information only.
+// All of it is static: no code of the library is executed.
+
+import (
+	"encoding/json"
+	"fmt"
+	"os"
+	"os/exec"
+	"path/filepath"
+	"sort"
+	"strings"
+)
+
+func runThoroughExtras(pc *propCheck, w *World, r *Report, repo string) {
+	thorough386(pc, w, r, repo)
+	thoroughSeeds(pc, r, repo)
+	thoroughCrossRef(r, repo)
+}
+
+func thorough386(pc *propCheck, w *World, r *Report, repo string) {
+	old, had := os.LookupEnv("OFV_GOARCH")
+	os.Setenv("OFV_GOARCH", "386")
+	defer func() {
+		if had {
+			os.Setenv("OFV_GOARCH", old)
+		} else {
+			os.Unsetenv("OFV_GOARCH")
+		}
+	}()
+	w2, err := LoadWorld(repo, false)
+	if err != nil {
+		r.Notef("GOARCH=386: the tree could not be loaded for a 32-bit target (%v); rules not re-run there", firstLine(err.Error()))
+		r.Extra["goarch_386"] = "not loadable"
+		return
+	}
+	r2 := NewReport(pc.ID, r.Tier)
+	pc.Run(w2, r2)
+	failing := map[string]bool{}
+	for _, o := range r.Obs {
+		if o.Verdict != VOK {
+			failing[o.Key()+"|"+o.Diag] = true
+		}
+	}
+	extra := 0
+	for _, o := range r2.Obs {
+		if o.Verdict == VOK || strings.HasPrefix(o.Rule, "floor") {
+			continue
+		}
+		if failing[o.Key()+"|"+o.Diag] {
+			continue
+		}
+		// keep the key: known findings and assumed rows apply to both targets
+		seen := false
+		for _, m := range r.Obs {
+			if m.Key() == o.Key() && m.Verdict != VOK {
+				seen = true
+			}
+		}
+		if seen {
+			continue
+		}
+		extra++
+		no := *o
+		no.Instance = strings.TrimSuffix(o.Instance+" [GOARCH=386]", " ")
+		r.Add(&no)
+	}
+	r.Extra["goarch_386"] = map[string]any{"obligations": len(r2.Obs), "failing_only_on_386": extra, "functions": len(w2.Funcs)}
+}
+
+func firstLine(s string) string {
+	if i := strings.Index(s, "\n"); i >= 0 {
+		return s[:i]
+	}
+	return s
+}
+
+type seedAudit struct {
+	Seed    string `json:"seed"`
+	Outcome string `json:"outcome"` // caught | silent | obsolete | not-applicable
+	Detail  string `json:"detail,omitempty"`
+}
+
+func thoroughSeeds(pc *propCheck, r *Report, repo string) {
+	if os.Getenv("OFV_NO_SEED_AUDIT") != "" {
+		return // the audit runs this binary on variants; those runs must not recurse
+	}
+	dirs, _ := filepath.Glob(filepath.Join(verifRoot(), "seeded", pc.ID+"-*"))
+	sort.Strings(dirs)
+	var out []seedAudit
+	exe, err := os.Executable()
+	if err != nil {
+		r.Notef("seed audit skipped: %v", err)
+		return
+	}
+	for _, d := range dirs {
+		name := filepath.Base(d)
+		a := seedAudit{Seed: name}
+		var meta struct {
+			Status  string `json:"status"`
+			Summary string `json:"summary"`
+		}
+		if b, err := os.ReadFile(filepath.Join(d, "meta.json")); err == nil {
+			json.Unmarshal(b, &meta)
+		}
+		if meta.Status == "obsolete" {
+			a.Outcome, a.Detail = "obsolete", "a later repair of the library made this change harmless (see meta.json)"
+			out = append(out, a)
+			continue
+		}
+		tmp, err := os.MkdirTemp("", "ofv-seed-")
+		if err != nil {
+			a.Outcome, a.Detail = "not-applicable", err.Error()
+			out = append(out, a)
+			continue
+		}
+		func() {
+			defer os.RemoveAll(tmp)
+			variant := filepath.Join(tmp, "tree")
+			if err := copyTree(repo, variant); err != nil {
+				a.Outcome, a.Detail = "not-applicable", "copy failed: "+err.Error()
+				return
+			}
+			patch, _ := filepath.Abs(filepath.Join(d, "patch.diff"))
+			cmd := exec.Command("git", "apply", "--whitespace=nowarn", patch)
+			cmd.Dir = variant
+			cmd.Env = append(os.Environ(), "GIT_CEILING_DIRECTORIES="+tmp)
+			if b, err := cmd.CombinedOutput(); err != nil {
+				a.Outcome, a.Detail = "not-applicable", "the patch does not apply to the current tree: "+firstLine(string(b))
+				return
+			}
+			ev := filepath.Join(tmp, "ev")
+			c2 := exec.Command(exe, "check", pc.ID, "--tier", "quick", "--repo", variant)
+			c2.Env = append(os.Environ(), "OFV_EVIDENCE_DIR="+ev, "OFV_NO_SEED_AUDIT=1", "VERIF_ROOT="+verifRoot())
+			b, err := c2.CombinedOutput()
+			code := 0
+			if ee, ok := err.(*exec.ExitError); ok {
+				code = ee.ExitCode()
+			} else if err != nil {
+				code = -1
+			}
+			switch code {
+			case 1:
+				a.Outcome = "caught"
+				for _, l := range strings.Split(string(b), "\n") {
+					if strings.HasPrefix(l, "VIOLATION "+pc.ID+"/") || strings.HasPrefix(l, "UNDECIDED "+pc.ID+"/") || strings.HasPrefix(l, "UNMAPPED "+pc.ID+"/") {
+						if len(l) > 260 {
+							l = l[:260] + "…"
+						}
+						a.Detail = l
+						break
+					}
+				}
+			case 0:
+				a.Outcome, a.Detail = "silent", "the rules of this property do not fire on this change (other properties' rules may; see DESIGN.md)"
+			default:
+				a.Outcome, a.Detail = "not-applicable", fmt.Sprintf("the variant could not be analysed (exit %d): %s", code, firstLine(string(b)))
+			}
+		}()
+		out = append(out, a)
+	}
+	n := map[string]int{}
+	for _, a := range out {
+		n[a.Outcome]++
+	}
+	r.Extra["seed_audit"] = map[string]any{
+		"what":    "independently written changes that break this property, applied one at a time to a scratch copy of the current tree; 'caught' = this property's rules report a violation on the variant",
+		"results": out, "caught": n["caught"], "silent": n["silent"], "obsolete": n["obsolete"], "not_applicable": n["not-applicable"],
+	}
+}
+
+func copyTree(src, dst string) error {
+	return filepath.Walk(src, func(p string, info os.FileInfo, err error) error {
+		if err != nil {
+			return err
+		}
+		rel, _ := filepath.Rel(src, p)
+		if rel == ".git" || strings.HasPrefix(rel, ".git"+string(filepath.Separator)) {
+			if info.IsDir() {
+				return filepath.SkipDir
+			}
+			return nil
+		}
+		t := filepath.Join(dst, rel)
+		if info.IsDir() {
+			return os.MkdirAll(t, 0o755)
+		}
+		if !info.Mode().IsRegular() {
+			return nil
+		}
+		b, err := os.ReadFile(p)
+		if err != nil {
+			return err
+		}
+		return os.WriteFile(t, b, 0o644)
+	})
+}
+
+// thoroughCrossRef records what the generic analysers say about the module (information only).
+func thoroughCrossRef(r *Report, repo string) {
+	res := map[string]any{}
+	run := func(name string, args ...string) {
+		if _, err := exec.LookPath(name); err != nil {
+			res[name] = "not installed"
+			return
+		}
+		cmd := exec.Command(name, args...)
+		cmd.Dir = repo
+		cmd.Env = goEnv()
+		b, _ := cmd.CombinedOutput()
+		lines := 0
+		for _, l := range strings.Split(string(b), "\n") {
+			if strings.Contains(l, ".go:") {
+				lines++
+			}
+		}
+		res[name+" "+strings.Join(args, " ")] = fmt.Sprintf("%d diagnostics", lines)
+	}
+	run("go", "vet", "./...")
+	run("staticcheck", "./...")
+	res["note"] = "generic analysers give no verdict on the property; their diagnostics were triaged once during design (DESIGN.md §6) and are listed here as a cross-reference only"
+	r.Extra["generic_analysers"] = res
+}
